@@ -5,12 +5,17 @@
  * every call. Pointers are reported as the index of the argv element they point at (0 = NULL, -1 = anything else).
  * No expected values.
  *
+ * Each execution (RESET .. next RESET/END) runs in its own forked child, so it starts from the library's true initial
+ * state ("aws_cli_optind: initialized to 1") and nothing - the parser's globals, its hidden state - can leak from one
+ * execution into the next, whatever the library does. RESET itself calls nothing.
+ *
  * script lines (strings are hex; "-" = empty string, "~" = NULL):
  *   RESET
  *   TABLE <name|~>:<val>:<has_arg> ...      option table the following GETOPT calls pass (zeroed terminator added)
  *   OPTSTR <str>                            optstring the following GETOPT calls pass
- *   ARGV <R|O> <str> ...                    another argument vector; the run is started with aws_cli_reset_state() (R)
- *                                           or with aws_cli_optind = 1 (O)
+ *   ARGV <R|O|I> <str> ...                  another argument vector; the run is started with aws_cli_reset_state() (R),
+ *                                           with aws_cli_optind = 1 (O), or - first vector of an execution only - with
+ *                                           nothing at all (I: the library's initial state)
  *   GETOPT <0|1>                            one call; 1 = pass a longindex pointer
  *   REWIND <R|O>                            rerun over the same vector
  *   DISPATCH <rv> <tag> <name>:<h> ...      aws_cli_dispatch_on_subcommand over the current vector; entry i uses handler h (0..3);
@@ -19,6 +24,8 @@
 #include "vh_core.h"
 
 #include <aws/common/command_line_parser.h>
+
+#include <sys/wait.h>
 
 #define MAXARG 64
 #define MAXOPT 32
@@ -136,9 +143,9 @@ static void need_argv(void) {
 static void restart(const char *mode) {
     if (mode[0] == 'R') {
         aws_cli_reset_state();
-    } else {
+    } else if (mode[0] == 'O') {
         aws_cli_optind = 1; /* "Reset this to 1 to parse another set of arguments, or to rerun the parser." */
-    }
+    } /* 'I': the first vector of a process needs neither ("initialized to 1") */
 }
 
 /* ---- sub-command handlers: record what they were given */
@@ -174,27 +181,20 @@ static int h3(int argc, char *const argv[], const char *n, void *u) {
 }
 static aws_cli_options_subcommand_fn *const handlers[4] = {h0, h1, h2, h3};
 
-int main(int argc, char **argv) {
-    if (argc < 3) {
-        return 3;
+static void run_execution(const char *path, long off) {
+    FILE *in = fopen(path, "r");
+    if (!in || fseek(in, off, SEEK_SET) != 0) {
+        perror(path);
+        exit(3);
     }
-    FILE *in = fopen(argv[1], "r");
-    vh_open(argv[2]);
-    vh_install_handlers(120);
-
+    int resets = 0;
     while (vh_next(in)) {
         if (vh_is("RESET")) {
-            drop_argv();
-            drop_table();
-            later(g_optstr);
-            g_optstr = NULL;
-            for (int i = 0; i < g_nold; ++i) {
-                free(g_old[i]);
+            if (resets++) {
+                break; /* the next execution */
             }
-            g_nold = 0;
             empty_table();
             g_optstr = cstr("-");
-            aws_cli_reset_state();
             vh_begin("Reset");
             state();
             vh_end();
@@ -257,7 +257,7 @@ int main(int argc, char **argv) {
             g_argc = n;
             restart(mode);
             vh_begin("Argv");
-            vh_str("m", mode[0] == 'R' ? "R" : "O");
+            vh_str("m", mode[0] == 'R' ? "R" : mode[0] == 'O' ? "O" : "I");
             state();
             vh_end();
         } else if (vh_is("REWIND")) {
@@ -295,7 +295,7 @@ int main(int argc, char **argv) {
             }
             struct aws_cli_subcommand_dispatch *dt = malloc(n ? sizeof(*dt) * (size_t)n : 1);
             long long hs[MAXOPT];
-            for (int i = 0; i < n && i < MAXOPT; ++i) {
+            for (int i = 0; i < n; ++i) {
                 char *e = vh_tok[i + 3];
                 char *c1 = strchr(e, ':');
                 if (!c1) {
@@ -348,6 +348,73 @@ int main(int argc, char **argv) {
             exit(3);
         }
     }
+    fclose(in);
+}
+
+int main(int argc, char **argv) {
+    if (argc < 3) {
+        return 3;
+    }
+    vh_open(argv[2]);
+    vh_install_handlers(120);
+    /* offsets of the RESET lines */
+    FILE *in = fopen(argv[1], "r");
+    if (!in) {
+        perror(argv[1]);
+        return 3;
+    }
+    long *offs = NULL;
+    size_t noffs = 0, cap = 0;
+    char *line = NULL;
+    size_t lcap = 0;
+    for (;;) {
+        long pos = ftell(in);
+        if (getline(&line, &lcap, in) < 0) {
+            break;
+        }
+        if (strncmp(line, "RESET", 5) == 0) {
+            if (noffs == cap) {
+                cap = cap ? cap * 2 : 64;
+                offs = realloc(offs, cap * sizeof(long));
+            }
+            offs[noffs++] = pos;
+        }
+    }
+    free(line);
+    fclose(in);
+    for (size_t k = 0; k < noffs; ++k) {
+        fflush(vh_out);
+        pid_t pid = fork();
+        if (pid < 0) {
+            perror("fork");
+            return 3;
+        }
+        if (pid == 0) {
+            alarm(60);
+            run_execution(argv[1], offs[k]);
+            fflush(vh_out);
+            VH_COV_FLUSH();
+            _exit(7); /* 7 = the execution ran to its end; anything else is a death */
+        }
+        int st = 0;
+        if (waitpid(pid, &st, 0) < 0) {
+            perror("waitpid");
+            return 3;
+        }
+        if (!(WIFEXITED(st) && WEXITSTATUS(st) == 7)) {
+            /* the child normally wrote a Died line itself (signal / sanitizer report / watchdog); make sure one exists */
+            if (WIFEXITED(st) && WEXITSTATUS(st) == 3) {
+                return 3; /* script error */
+            }
+            fseek(vh_out, 0, SEEK_END);
+            fprintf(vh_out, "\n{\"e\":\"Died\",\"sig\":%d}\n", WIFSIGNALED(st) ? WTERMSIG(st) : 6);
+            fflush(vh_out);
+            free(offs);
+            return 0;
+        }
+        fseek(vh_out, 0, SEEK_END);
+    }
+    free(offs);
     vh_begin("End");
     vh_int("live", (long long)vh_live_blocks);
     vh_end();
